@@ -38,7 +38,8 @@ pub struct Case {
 }
 
 // ("p::" is exactly a scope prefix; "b#1" and "q r" are names that a script-level re-parse would cut)
-const NAMES: [&str; 11] = ["a", "b", "c", "p::x", "p::y", "q", "p", "ap", "p::", "b#1", "q r"];
+// ("n\u{e9}" / "n\u{e9}x" / "\u{e9}": names whose byte length and character count differ, also used as prefixes)
+const NAMES: [&str; 14] = ["a", "b", "c", "p::x", "p::y", "q", "p", "ap", "p::", "b#1", "q r", "n\u{e9}", "n\u{e9}x", "\u{e9}"];
 // ("or", "and", "not": as VALUES of variables these are plain text)
 const VALUES: [&str; 13] = ["1", "", "hello", "two words", "h\u{e9}llo \u{6f22}", "false", "handle:abcdefghij0123456789", "p::x", "--copy", "a", "or", "and", "not"];
 
@@ -84,7 +85,7 @@ fn gen_op(rng: &mut Rng) -> Op {
         7 | 8 => Op::GetByName(rng.pick(&NAMES).to_string()),
         9 => Op::IsDefined(rng.pick(&NAMES).to_string()),
         10 => Op::GetAllVarNames,
-        11 => Op::UnsetAllVars(if rng.chance(3, 4) { Some(rng.pick(&["p::", "p", "a", "zz", "", "::", "x"]).to_string()) } else { None }),
+        11 => Op::UnsetAllVars(if rng.chance(3, 4) { Some(rng.pick(&["p::", "p", "a", "zz", "", "::", "x", "n\u{e9}", "\u{e9}", "n"]).to_string()) } else { None }),
         12 => Op::ClearScope(rng.pick(&["p", "a", "q", "p::x", "ap", ""]).to_string()),
         13 | 14 | 15 => Op::Push(if rng.chance(2, 3) { Some(gen_names(rng)) } else { None }),
         16 | 17 | 18 => Op::Pop(if rng.chance(2, 3) { Some(gen_names(rng)) } else { None }),
